@@ -18,6 +18,7 @@ import (
 	"github.com/TimothyStiles/poly"
 	polyrandom "github.com/TimothyStiles/poly/random"
 	"github.com/TimothyStiles/poly/transform/codon"
+	"github.com/TimothyStiles/poly/transform/variants"
 )
 
 // extrasRecord: calls beyond the listed properties (see spec/Extras_Trace.tla)
@@ -44,6 +45,23 @@ func extrasRecord(tier string, seed int64, emit func(interface{})) {
 			feats = append(feats, map[string]interface{}{"type": typ, "loc": absLoc(g)})
 		}
 		emit(map[string]interface{}{"k": "coding", "parent": string(pb), "feats": feats, "got": codon.GetCodingRegions(seq)})
+		// AllVariantsIUPAC outside its domain: one letter that is no IUPAC code, among concrete bases or codes
+		{
+			alpha := "ACGT"
+			if rng.Intn(2) == 0 {
+				alpha = "ACGTRYSWKMBDHVN"
+			}
+			b := make([]byte, 1+rng.Intn(6))
+			for j := range b {
+				b[j] = alpha[rng.Intn(len(alpha))]
+			}
+			b[rng.Intn(len(b))] = "XZUEFIJLOPQ!1 *-xzu"[rng.Intn(19)]
+			if rng.Intn(3) == 0 {
+				b = []byte(strings.ToLower(string(b)))
+			}
+			_, verr := variants.AllVariantsIUPAC(string(b))
+			emit(map[string]interface{}{"k": "variantserr", "s": string(b), "err": verr != nil})
+		}
 		// random.ProteinSequence
 		ln := rng.Intn(60)
 		sd := rng.Int63()
@@ -54,11 +72,10 @@ func extrasRecord(tier string, seed int64, emit func(interface{})) {
 		id := tableIds[rng.Intn(len(tableIds))]
 		t := roundtrip(codon.GetCodonTable(id).OptimizeTable(randCoding(rng, rng.Intn(900), rng.Intn(2) == 0)), false)
 		w, _, _ := projectTable(t)
-		path := tmpFile(nil)
+		path := stalePath("codonjson")
 		codon.WriteCodonJSON(t, path)
 		text, _ := os.ReadFile(path)
 		back := codon.ReadCodonJSON(path)
-		os.Remove(path)
 		var real interface{}
 		_ = json.Unmarshal(text, &real)
 		bb, _ := json.Marshal(back)
